@@ -18,11 +18,14 @@ THEOREMS = [
     "C08_resume_order",
     "C08_resume_progress",
     "C08_resume_repaired",
-    "C08_resume_now_partial",
-    "C08_recovery_now",
+    "C08_resume_now",
+    "C08_no_recall_composite",
+    "C08_composite_rerun_before",
+    "C08_resume_mid_partial",
+    "C08_recovery_mid",
     "C08_resume_stale_partial",
     "C08_checkpoint_repaired",
-    "C08_checkpoint_now_partial",
+    "C08_checkpoint_mid_partial",
     "C08_inflight_cache_witness",
     "C08_inflight_cache_detail",
     "C08_stale_trigger_witness",
@@ -250,6 +253,7 @@ def _snapshot(lvs, node):
                 "recv": recv,
                 "conn": {lab: [c.owner.label for c in ch.connections] for lab, ch in n.inputs.items()},
                 "comp": isinstance(n, Composite),
+                "has_out": _out_value(n) != "ND",
             }
     return snap
 
@@ -311,10 +315,16 @@ def probe_tree():
         except BaseException:  # noqa: BLE001
             pass
         reset = "bogus__ran" not in wf.z.signals.input.accumulate_and_run.received_signals
+        # a node that is out on an executor: does its pickled state vouch for inputs? (no entry is written before
+        # the result is processed, and/or `__getstate__` drops it while running)
+        from .execsim import CtlExecutor, Scheduler
+
+        psched = Scheduler([])
         n = nodes.F3(label="q")
-        n._cached_inputs = {"a": 1}
-        n.running = True
-        drop = n.__getstate__().get("_cached_inputs") is None
+        n.executor = CtlExecutor(psched, "ctl")
+        n.run()
+        drop = bool(n.running) and n.__getstate__().get("_cached_inputs") is None
+        psched.drain()
         # a macro whose value-linked child is marked running: does it come back from a pickle?
         import pickle
 
@@ -338,7 +348,20 @@ def probe_tree():
         before = [c.owner.label for c in m2.n6.inputs.a.connections]
         m3 = pickle.loads(pickle.dumps(m2))
         order = [c.owner.label for c in m3.n6.inputs.a.connections] == before
-        _PROBE.update({"reset": reset, "drop": drop, "clearfail": clear_on_fail, "relink": relink, "order": order})
+        # does a composite that has run keep its cache through a pickle?
+        m2.run()
+        keepcomp = m2._cached_inputs is not None and pickle.loads(pickle.dumps(m2))._cached_inputs is not None
+        # a composite with a nested macro whose input is connected: does it recognise its own finished run?
+        inner = {"nodes": [{"gid": 5, "kind": "term"}], "slots": {"5": [["A"], ["B"], []]}, "ui": {"A": 8, "B": 9},
+                 "out": 5}
+        nodes_c08.SPEC_QUEUE.insert(0, {"nodes": [{"gid": 4, "kind": "term"}, {"gid": 6, "kind": "macro", "inner": inner}],
+                                        "slots": {"4": [["A"], ["B"], []], "6": [[4], []]}, "ui": {"A": 10, "B": 11},
+                                        "out": 4})
+        m4 = nodes_c08.Mac8(label="m4")
+        m4.run()
+        keyafter = bool(m4.cache_hit)
+        _PROBE.update({"reset": reset, "drop": drop, "clearfail": clear_on_fail, "relink": relink, "order": order,
+                       "keepcomp": keepcomp, "keyafter": keyafter})
     finally:
         os.chdir(cwd)
         shutil.rmtree(d, ignore_errors=True)
@@ -662,7 +685,8 @@ def model_input(case, impl):
     lvs = levels_of(case)
     n = case["N"]
     p = r["probe"]
-    lines = [f"cfg {int(p['reset'])} {int(p['drop'])} {int(p['clearfail'])} {int(p['relink'])} {int(p['order'])}",
+    lines = [f"cfg {int(p['reset'])} {int(p['drop'])} {int(p['clearfail'])} {int(p['relink'])} {int(p['order'])} "
+             f"{int(p['keepcomp'])} {int(p['keyafter'])}",
              f"n {n}"]
     root_lid = lvs[-1]["lid"]
     for lv in lvs:
@@ -817,6 +841,16 @@ def oracle(case, impl):
     if again:
         fails.append({"clause": "completed-node-called-again", "detail": f"nodes {again}; calls {r['calls2']}",
                       "signature": sig("recall", inflight=inflight)})
+    # ... nor is a composite child that had completed (and has nothing new inside or upstream) run again
+    comp_again = []
+    for lv in lvs:
+        for g, lid2 in lv["macros"].items():
+            v = loaded[g]
+            if v["flags"] == "-" and v["has_out"] and g not in aff and r["levels"][lid2]["ran"]:
+                comp_again.append(g)
+    if comp_again:
+        fails.append({"clause": "completed-composite-run-again", "detail": f"macros {comp_again}",
+                      "signature": sig("recall-composite", inflight=inflight)})
     twice = sorted({g for g in r["calls2"] if r["calls2"].count(g) > 1})
     if twice:
         fails.append({"clause": "node-called-twice-in-resume", "detail": f"{twice}", "signature": sig("twice")})
@@ -970,7 +1004,7 @@ def gen_cases(rng, tier):
                 yield {**base, "kind": "recovery", "fails": [g], "ckpt": None, "dirty": []}
                 yield {**base, "kind": "checkpoint", "fails": [], "ckpt": g, "dirty": [],
                        "exec": [] if len(levels_of(base)) > 1 else base["exec"]}
-    yield {"kind": "malformed", "lines": ["n x", "level", "slot 0 a", "cut somewhere", "endlevel", "run 1", "cfg 1 1 1 1"]}
+    yield {"kind": "malformed", "lines": ["n x", "level", "slot 0 a", "cut somewhere", "endlevel", "run 1", "cfg 1 1 1 1 1 1"]}
 
 
 def _flat(n, slots, **kw):
